@@ -36,6 +36,11 @@ theorem opcodes_are_rfc :
 
 theorem guid_is_rfc : guid = Rfc6455.guid := by decide
 
+/-- the library's own limits: data frames are opcodes 0..2, the reassembled message has the same limit as
+    a frame (2^31 − 16, so `length + 4` and `length + 1` fit an `int`), the payload buffer starts at 64 KiB and at most doubles -/
+theorem limits_are_consistent :
+    recvDataOps = 3 ∧ recvMaxMsg = recvMaxLen ∧ recvMaxMsg + 4 < 2 ^ 31 ∧ recvChunk = 65536 := by decide
+
 /-! ## masking -/
 
 /-- The code's masking block — key read big-endian, `swapBytes`, XOR of `len/4 + 1` 32-bit words over a
@@ -97,8 +102,9 @@ theorem header_roundtrip (isClient : Bool) (opcode len : Nat) (hop : opcode < 16
     generator state: an application that calls `receive()` until `closed()` obtains — apart from the empty
     results control frames produce — exactly the messages' payloads, in sending order, each once; the
     connection ends closed and no masking loop left its buffer.
-    Size guard: the library holds a frame in an `int`-indexed array, so each frame payload is at most
-    2^31 − 16 bytes (`Fits`). -/
+    Size guards (`MsgFits`): the library holds a frame and the reassembled message in `int`-indexed arrays,
+    so each frame payload *and the sum of the fragments of one message* is at most 2^31 − 16 bytes; a
+    message beyond that is refused (`oversized_message_refused`), never delivered wrapped. -/
 theorem messages_intact (isClient : Bool) (rng : Rng) (ms : List Rfc6455.Msg) (trailing : List Rfc6455.Ctl)
     (hfit : ∀ m ∈ ms, MsgFits m) (hctl : CtlsFit trailing) (hne : ∀ m ∈ ms, m.payload ≠ []) :
     let r := run { isClient := isClient, rng := rng, inp := Rfc6455.wire ms trailing }
@@ -137,13 +143,82 @@ theorem library_roundtrip (senderIsClient : Bool) (srng rrng : Rng) (msgs : List
 /-! ## receiving anything at all -/
 
 /-- **Hostile input can only close the connection.**  For *every* byte stream (malformed, truncated at
-    any offset, reserved opcodes, any length field), either role, any generator state: reading until
-    `closed()` terminates with the connection closed, and no masking loop (incoming frames, outgoing
-    pongs) ever touched a byte outside its buffer. -/
+    any offset, reserved opcodes, any length field, any fragment sizes), either role, any generator state:
+    reading until `closed()` ends with the connection closed; no masking loop (incoming frames, outgoing
+    pongs) ever touched a byte outside its buffer; every result fits an `int`-indexed array (no negative or
+    wrapped message length, also for fragments adding up beyond 2^31). -/
 theorem hostile_safe (isClient : Bool) (rng : Rng) (inp : List UInt8) :
     let r := run { isClient := isClient, rng := rng, inp := inp }
-    r.2.closed = true ∧ r.2.fault = false :=
-  receiveAll_closes (inp.length + 1) { isClient := isClient, rng := rng, inp := inp } [] rfl (Or.inl (by simp))
+    r.2.closed = true ∧ r.2.fault = false ∧ ∀ m ∈ r.1, m.length ≤ 2147483632 := by
+  intro r
+  have h := receiveAll_closes (inp.length + 1) { isClient := isClient, rng := rng, inp := inp } [] rfl (Or.inl (by simp))
+  exact ⟨h.1, h.2, receiveAll_bounded _ _ [] (fun m hm => by simp at hm)⟩
+
+/-- **Termination is real, not an artefact of the fuel**: the two loops of the model are started with
+    `input length + 1` units of fuel; giving them any larger amount changes nothing, i.e. the fuel is
+    never exhausted (each frame consumes at least two bytes, each `receive()` at least one or closes). -/
+theorem fuel_irrelevant (c : Conn) (hf : c.fault = false) (extra : Nat) :
+    recvLoop (c.inp.length + 1 + extra) c [] false = receive c ∧
+    receiveAll (c.inp.length + 1 + extra) c [] = run c := by
+  induction extra with
+  | zero => exact ⟨rfl, rfl⟩
+  | succ n ih =>
+    constructor
+    · rw [← ih.1, ← Nat.add_assoc, ← recvLoop_fuel _ c [] false (by omega)]
+    · rw [← ih.2, ← Nat.add_assoc, ← receiveAll_fuel _ c [] hf (Or.inl (by omega))]
+
+/-- the masking loop of `send()` never leaves its buffer: `sendFrame` always returns the bytes -/
+theorem send_in_bounds (isClient : Bool) (rng : Rng) (type : Nat) (p : List UInt8) :
+    (sendFrame isClient rng type p).isSome = true := sendFrame_isSome isClient rng type p
+
+/-- no frame reader step and no `receive()` loop ever reports a masking loop outside its buffer -/
+theorem receive_in_bounds (msgLen : Nat) (inp : List UInt8) (isClient : Bool) (rng : Rng) :
+    readFrame msgLen inp ≠ .fault ∧ (run { isClient := isClient, rng := rng, inp := inp }).2.fault = false :=
+  ⟨readFrame_no_fault msgLen inp, (hostile_safe isClient rng inp).2.1⟩
+
+/-- **Memory asked for is bounded by what has arrived** (the defect repaired in d2a7e85): while reading a
+    frame that announces `len` payload bytes with `avail` bytes left in the stream, every length passed to
+    `buffer.resize` is at most `2 * avail + 65536` (and at most `len`), and the payload is accepted exactly when
+    `len ≤ avail`.  A 10-byte header announcing 2 GiB makes the library ask for 64 KiB, not 2 GiB.
+    (With `Array`'s doubling growth the capacity is at most twice the requested length; the masking step
+    asks for `len + 4` only after all `len` bytes have arrived.) -/
+theorem allocation_bounded_by_received (len avail : Nat) :
+    (readPayload (len + 1) len 0 avail 0).1 = decide (len ≤ avail) ∧
+    (readPayload (len + 1) len 0 avail 0).2 ≤ 2 * avail + 65536 ∧ (readPayload (len + 1) len 0 avail 0).2 ≤ len := by
+  obtain ⟨h1, h2, _⟩ := readPayload_spec (len + 1) len 0 avail 0 (by omega) (by omega) (by omega)
+  have hc : recvChunk = 65536 := rfl
+  rw [hc] at h2
+  exact ⟨h1, by omega, by omega⟩
+
+/-- **A message whose fragments add up beyond 2^31 − 16 bytes is refused** (the defect repaired in
+    d352fb1; the sum used to wrap to a negative `int`): with `msgLen` bytes accumulated, a data frame
+    (opcode 0, 1, 2) announcing more than `2^31 − 16 − msgLen` bytes (itself within the frame limit) closes the connection before a single
+    payload byte is read; control frames are not affected. -/
+theorem oversized_message_refused (fin : Bool) (op : Nat) (hop : op < 3) (key : Option Rfc6455.Key) (p rest : List UInt8)
+    (hp : Fits p) (msgLen : Nat) (hmsg : msgLen ≤ 2147483632) (hsum : msgLen + p.length > 2147483632) :
+    readFrame msgLen (Rfc6455.frame fin op key p ++ rest) = .close := by
+  cases h : readFrame msgLen (Rfc6455.frame fin op key p ++ rest) with
+  | close => rfl
+  | fault => exact absurd h (readFrame_no_fault _ _)
+  | ok f o b r =>
+    exfalso
+    obtain ⟨_, _, hs⟩ := readFrame_ok_props _ _ _ _ _ _ h
+    -- the frame that was read is this frame: compare with the reader that has nothing accumulated
+    rcases readFrame_mono msgLen (Rfc6455.frame fin op key p ++ rest) with h0 | h0
+    · rw [h0] at h; exact absurd h (by simp)
+    · rw [h] at h0
+      have hne : p ≠ [] ∨ key.isSome = true ∨ rest ≠ [] := by
+        by_cases hpe : p = []
+        · subst hpe; simp at hsum; omega
+        · exact Or.inl hpe
+      have hfull := readFrame_frame fin op (by omega) key p hp rest hne 0 (fun _ => by have : p.length ≤ 2147483632 := hp; omega)
+      rw [hfull] at h0
+      simp only [Frame.ok.injEq] at h0
+      obtain ⟨_, ho, hbb, _⟩ := h0
+      rw [ho] at hs
+      have := hs hop
+      rw [hbb] at this
+      omega
 
 /-- **No negative or wrapped length.**  Whatever the header bytes are, a length that reaches
     `buffer.resize(len)` is the declared one (7-bit, 16-bit or 64-bit big-endian field), lies in
@@ -185,17 +260,17 @@ theorem len64_low_sign_bit_refused (b0 : UInt8) (hi lo : Nat) (hhi : hi < 2 ^ 32
 
 /-- frames are self-delimiting: what the frame reader returns for a frame does not depend on the bytes
     that follow it -/
-theorem frames_self_delimiting (inp more : List UInt8) (fin : Bool) (op : Nat) (buf rest : List UInt8)
-    (h : readFrame inp = .ok fin op buf rest) : readFrame (inp ++ more) = .ok fin op buf (rest ++ more) :=
-  readFrame_append inp more fin op buf rest h
+theorem frames_self_delimiting (msgLen : Nat) (inp more : List UInt8) (fin : Bool) (op : Nat) (buf rest : List UInt8)
+    (h : readFrame msgLen inp = .ok fin op buf rest) : readFrame msgLen (inp ++ more) = .ok fin op buf (rest ++ more) :=
+  readFrame_append msgLen inp more fin op buf rest h
 
 /-- **A frame cut short is never delivered** (the defect repaired in 7971835): for every RFC frame — any
     opcode, masked or not, any payload up to 2^31 − 16 bytes — and every cut offset inside it, the frame
     reader answers "close": no buffer, no uninitialised bytes, nothing echoed in a pong. -/
 theorem truncated_frame_not_delivered (fin : Bool) (op : Nat) (hop : op < 16) (key : Option Rfc6455.Key) (p : List UInt8)
-    (hl : Fits p) (k : Nat) (hk : k < (Rfc6455.frame fin op key p).length) :
-    readFrame ((Rfc6455.frame fin op key p).take k) = .close :=
-  truncated_frame_close fin op hop key p hl k hk
+    (hl : Fits p) (k : Nat) (hk : k < (Rfc6455.frame fin op key p).length) (msgLen : Nat) :
+    readFrame msgLen ((Rfc6455.frame fin op key p).take k) = .close :=
+  truncated_frame_close fin op hop key p hl k hk msgLen
 
 /-- **Cut inside the first frame of a message (or inside a control frame between messages), at any offset**:
     the complete messages before the cut are delivered intact, once, in order; the cut frame yields
@@ -285,7 +360,7 @@ example : let r := run { isClient := false, rng := ⟨1, 2, 3, 4⟩,
     r.1 = [[72, 101, 108, 108, 111]] ∧ r.2.out = [0x8a, 0x01, 0x70] ∧ r.2.closed = true := by decide
 -- the hypotheses of `messages_intact` are satisfiable with a 3-fragment masked message and control frames
 example : MsgFits ⟨true, ⟨[⟨false, [1], none⟩], [1, 2], some ⟨0, 9, 0, 7⟩⟩, [⟨[⟨true, [], none⟩], [], none⟩, ⟨[], [3], none⟩]⟩ := by
-  simp [MsgFits, FragFits, CtlsFit, Fits]
+  simp [MsgFits, FragFits, CtlsFit, Fits, Rfc6455.Msg.payload]
 -- the frame that used to give a negative length closes the connection
 example : (run { isClient := false, rng := ⟨1, 2, 3, 4⟩, inp := [0x82, 0x7f, 0, 0, 0, 0, 0x80, 0, 0, 0] }).1 = [[]] := by decide
 -- a frame cut inside its payload is not delivered
